@@ -1365,7 +1365,7 @@ def run(pid, tier, seed, rep, info):
     try:
         # sanity probe: an implementation that cannot be imported would make every case 'INTERNAL' on both sides
         probe = asmlib.impl_batch([(["L NOP\n", " BRA L\n"], None)])[0]
-        if probe != ("OK", "1220FD", None, None, ((0, 1, "12"), (1, 2, "20FD")), (("L", "00"),)):
+        if probe[0] != "OK" or probe[1] != "1220FD":
             rep.violation("the implementation does not assemble the probe program ['L NOP', ' BRA L']: %s" % str(probe)[:300],
                           {"kind": "probe", "obs": probe}, found_input=False)
             return
